@@ -39,9 +39,7 @@ def run_selection(ctx, cls, f: FunctionInfo, tags: list, ranks: dict, comps: dic
         if nm == "choice" and len(args) == 1 and isinstance(args[0], list) and isinstance(call.func, ast.Attribute):
             lst = args[0]
             if not lst:
-                it.trace.append(Effect("raise", "IndexError: choice from an empty list", node=call))
-                from ..modelinterp import _Return
-                raise _Return(UNKNOWN)
+                it.throw("IndexError: choice from an empty list", call)
             i = script.picks.pop(0) if script.picks else 0
             v = lst[i % len(lst)]
             it.trace.append(Effect("call", "choice", (list(lst), v), {}, node=call, fn=it.fn_stack[-1]))
